@@ -83,7 +83,8 @@ Record Inv (s : st) : Prop := mkInv {
   i_closing : forall g, rt s = RClosing g -> acst s = Shutdown;
   i_lock : rt_hold (rt s) = true -> amu s = Some HRt /\ acst s <> Shutdown;
   i_lockw : forall g, g < length (trs s) -> wp (getT s g) = WPHold -> amu s = Some (HWp g);
-  i_tr : forall g, g < length (trs s) -> TrInv s g
+  i_tr : forall g, g < length (trs s) -> TrInv s g;
+  i_fresh : forall g k, rt_fresh (rt s) g = true -> k < length (cl s) -> closing_g (getC s k) g = false
 }.
 
 Lemma inv_init : Inv init.
@@ -126,7 +127,7 @@ Ltac crack H :=
   end.
 Ltac rdc := unfold getC, getT, getG, setC, setT, setG, pumps_gone, free in *; cbn -[nth upd Nat.ltb Nat.eqb length forallb existsb wg_clear] in *.
 
-Ltac dI I := destruct I as [j_nc j_addr j_uniq j_ctx j_t1 j_t4 j_t5 j_ret j_cg j_shut j_actr j_rtg j_wait j_top j_closing j_lock j_lockw j_tr].
+Ltac dI I := destruct I as [j_nc j_addr j_uniq j_ctx j_t1 j_t4 j_t5 j_ret j_cg j_shut j_actr j_rtg j_wait j_top j_closing j_lock j_lockw j_tr j_fresh].
 
 (* ---- generic preservation lemmas ---- *)
 Lemma inv_ext s s' : Inv s ->
@@ -409,7 +410,7 @@ Ltac trg j_tr := intros g0 Hg0; destruct (j_tr g0 Hg0) as [A B C D]; constructor
 Ltac easygoals := try solve [intros; discriminate | intros ? [?|?]; discriminate | intros ? [?|?] ?; discriminate | intros; lia | intros; congruence].
 
 (* a transport's clauses when only the address connection and the Close calls move *)
-Lemma TrInv_upd s s' g : trs s' = trs s -> TrInv s g ->
+Lemma TrInv_upd s s' g : getT s' g = getT s g -> TrInv s g ->
   (Live s g -> Live s' g \/ wp (getT s g) = WPExit) ->
   (cconn (getT s g) = true ->
      actr s' <> Some g /\ rt_fresh (rt s') g = false /\ (forall k, k < length (cl s') -> getC s' k <> T2 g) /\
@@ -417,8 +418,7 @@ Lemma TrInv_upd s s' g : trs s' = trs s -> TrInv s g ->
       (exists k, k < length (cl s') /\ getC s' k = T3 g) \/ rt s' = RClosing g \/ pumps_gone s g = true)) ->
   TrInv s' g.
 Proof.
-  intros E [A B C D] HL HC.
-  assert (GT : getT s' g = getT s g) by (unfold getT; rewrite E; auto).
+  intros GT [A B C D] HL HC.
   assert (PG : pumps_gone s' g = pumps_gone s g) by (unfold pumps_gone; rewrite GT; auto).
   constructor; rewrite ?GT, ?PG; auto.
   - destruct C as [C|C]; auto.
@@ -453,3 +453,214 @@ Proof.
   - intros [X|[X|X]]; auto. cbn in X. apply Nat.eqb_eq in X. subst g0. right. exact WX.
 Qed.
 
+
+Ltac std HR := constructor; rdc; rewrite ?HR in *; auto; easygoals.
+Ltac t4g j_t4 := try solve [intros k Hk E; specialize (j_t4 k Hk E); congruence].
+Ltac trs_ s j_tr HR := try (intros g0 Hg0; apply (TrInv_upd s); [reflexivity | exact (j_tr g0 Hg0) | | ]; destruct (j_tr g0 Hg0) as [A B C D]; unfold Live; rdc; rewrite ?HR in *).
+Ltac t1g HT := try solve [intros k Hk E; unfold getC in HT; rewrite (HT k Hk) in E; discriminate].
+Ltac whg HW := try solve [let W := fresh in intros ? ? W; exfalso; eapply HW; [|exact W]; assumption].
+Ltac prop := try solve [intuition (try discriminate; try congruence; eauto)].
+
+Lemma step_dial s s' ok : Inv s -> step good s (LDial ok) = Some s' -> Inv s'.
+Proof.
+  intros I H. pose proof I as I0. dI I0. pre2 H.
+  all: match goal with H : rt _ = _ |- _ => rename H into HR end.
+  all: assert (AN : actr s = None) by (apply noactr_none; auto; rewrite HR; auto).
+  2: { std HR. all: t4g j_t4. all: trs_ s j_tr HR. all: prop. }
+  std HR. all: t4g j_t4.
+  - intros k Hk E. exfalso. assert (X : after_t4 (getC s k) = true) by (unfold getC; rewrite E; auto). specialize (j_t4 k Hk X). congruence.
+  - intros k g Hk E. rewrite app_length. specialize (j_cg k g Hk E). lia.
+  - intros g E. apply Nat.eqb_eq in E. rewrite app_length. cbn. lia.
+  - intros g Hg W. rewrite app_length in Hg. cbn in Hg. destruct (Nat.eq_dec g (length (trs s))) as [->|Hne].
+    + rewrite nth_app_last in W. discriminate.
+    + rewrite nth_app_old in W by lia. apply j_lockw; auto. lia.
+  - intros g Hg. rewrite app_length in Hg. cbn in Hg. destruct (Nat.eq_dec g (length (trs s))) as [->|Hne].
+    + constructor; unfold getT, Live; rdc; rewrite ?nth_app_last; cbn; try discriminate.
+      left. right. left. apply Nat.eqb_refl.
+    + assert (Hg' : g < length (trs s)) by lia.
+      apply (TrInv_upd s); [unfold getT; cbn; apply nth_app_old; auto | exact (j_tr g Hg') | | ]; destruct (j_tr g Hg') as [A B C D]; unfold Live; rdc; rewrite ?HR in *.
+      * intros [X|[X|X]]; auto. discriminate.
+      * intros X. destruct (D X) as (D1 & D2 & D3 & D4). repeat split; auto; try congruence.
+        { destruct (Nat.eqb_spec g (length (trs s))); auto. contradiction. }
+        { intros [Y|Y]; auto. discriminate. }
+  - intros g k E Hk. apply Nat.eqb_eq in E. subst g. destruct (closing_g (nth k (cl s) (CRet false)) (length (trs s))) eqn:X; auto.
+    specialize (j_cg k _ Hk X). lia.
+Qed.
+
+
+Lemma pub_cases s v via s' : pub s v via = Some s' ->
+  (acst s = v /\ s' = s) \/
+  (acst s <> v /\ via = true /\ lc s = LCSel /\ s' = s <| acst := v |> <| lc := LCUpd v |>) \/
+  (acst s <> v /\ via = false /\ ctxd s = true /\ s' = s <| acst := v |>).
+Proof.
+  unfold pub. destruct (cstate_eqb (acst s) v) eqn:E.
+  - intros H; injection H as <-. left. split; auto. apply cstate_eqb_eq; auto.
+  - apply cstate_eqb_neq in E. destruct via.
+    + destruct (lc s) eqn:L; try discriminate. intros H; injection H as <-. right; left. auto.
+    + destruct (ctxd s) eqn:C; try discriminate. intros H; injection H as <-. right; right. auto.
+Qed.
+
+Ltac pre3 H := unfold step in H; crack H; injection H as <-;
+  repeat match goal with
+  | H : negb (Nat.ltb _ _) = false |- _ => apply negb_ltb in H
+  | H : Nat.ltb _ _ = true |- _ => apply ltb_lt in H
+  | H : _ good = false |- _ => discriminate H
+  | H : cstate_eqb _ _ = true |- _ => apply cstate_eqb_eq in H
+  | H : cstate_eqb _ _ = false |- _ => apply cstate_eqb_neq in H
+  | H : pub _ _ _ = Some _ |- _ => apply pub_cases in H; destruct H as [[? ->]|[(? & ? & ? & ->)|(? & ? & ? & ->)]] end.
+
+Lemma no_t1_if s : Inv s -> acst s <> Shutdown -> forall k, k < length (cl s) -> after_t1 (getC s k) = false.
+Proof. intros I N k Hk. destruct (after_t1 (getC s k)) eqn:E; auto. destruct (i_t1 _ I k Hk E). contradiction. Qed.
+Lemma no_ret_if_rt s : Inv s -> rt s <> RExit -> forall k, k < length (cl s) -> getC s k <> CRet true.
+Proof. intros I N k Hk E. apply N. apply (i_t4 _ I k Hk). rewrite E. reflexivity. Qed.
+Lemma hold_facts s : Inv s -> rt_hold (rt s) = true -> amu s = Some HRt /\ acst s <> Shutdown /\ (forall g, g < length (trs s) -> wp (getT s g) <> WPHold)
+   /\ (forall k, k < length (cl s) -> after_t1 (getC s k) = false) /\ (forall k, k < length (cl s) -> getC s k <> CRet true).
+Proof.
+  intros I H. destruct (i_lock _ I H) as [A B]. repeat split; auto.
+  - intros g Hg W. pose proof (i_lockw _ I g Hg W). congruence.
+  - apply no_t1_if; auto.
+  - apply no_ret_if_rt; auto. destruct (rt s); try discriminate.
+Qed.
+Lemma free_facts s : Inv s -> free s = true -> amu s = None /\ rt_hold (rt s) = false /\ (forall g, g < length (trs s) -> wp (getT s g) <> WPHold).
+Proof.
+  intros I F. assert (A : amu s = None) by (unfold free in F; destruct (amu s); congruence). repeat split; auto.
+  - destruct (rt_hold (rt s)) eqn:E; auto. destruct (i_lock _ I E). congruence.
+  - intros g Hg W. pose proof (i_lockw _ I g Hg W). congruence.
+Qed.
+
+(* RTop: take the lock, or leave if shut down *)
+Lemma step_rt_top s s' via : Inv s -> rt s = RTop -> step good s (LRt via) = Some s' -> Inv s'.
+Proof.
+  intros I HR H. pose proof I as I0. dI I0. unfold step in H. rewrite HR in H. pre3 H.
+  all: match goal with H : negb (free _) = false |- _ => apply negb_false_iff in H; destruct (free_facts _ I H) as (FA & FH & FW) end.
+  all: std HR; t4g j_t4; trs_ s j_tr HR; prop.
+  intros g Hg W. exfalso. apply (FW g Hg W).
+Qed.
+
+(* RHoldTop: forget the transport, report Connecting, unlock, dial *)
+Lemma step_rt_holdtop s s' via : Inv s -> rt s = RHoldTop -> step good s (LRt via) = Some s' -> Inv s'.
+Proof.
+  intros I HR H. pose proof I as I0. dI I0. unfold step in H. rewrite HR in H. pre3 H.
+  all: destruct (hold_facts s I ltac:(rewrite HR; reflexivity)) as (HA & HS & HW & HT & HN).
+  all: std HR; t4g j_t4; t1g HT; whg HW; trs_ s j_tr HR; prop.
+Qed.
+
+
+(* RGot: the dial succeeded *)
+Lemma step_rt_got s s' via g : Inv s -> rt s = RGot g -> step good s (LRt via) = Some s' -> Inv s'.
+Proof.
+  intros I HR H. pose proof I as I0. dI I0. unfold step in H. rewrite HR in H. pre3 H.
+  all: match goal with H : negb (free _) = false |- _ => apply negb_false_iff in H; destruct (free_facts _ I H) as (FA & FH & FW) end.
+  all: assert (AN : actr s = None) by (apply noactr_none; auto; rewrite HR; auto).
+  all: assert (Hg : g < length (trs s)) by (apply j_rtg; rewrite HR; cbn; apply Nat.eqb_refl).
+  all: destruct (j_tr g Hg) as [TA TB TC TD].
+  - (* closing a closed channel cannot happen: the fresh transport has not been closed by anybody *)
+    exfalso. match goal with H : cconn _ = true |- _ => destruct (TD H) as (_ & X & _) end. rewrite HR in X. cbn in X. rewrite Nat.eqb_refl in X. discriminate.
+  - (* shut down meanwhile: close the fresh transport *)
+    match goal with H : cconn _ = false |- _ => rename H into HC end.
+    assert (NR : forall k, k < length (cl s) -> getC s k <> CRet true) by (apply no_ret_if_rt; auto; congruence).
+    std HR; t4g j_t4; rewrite ?upd_length; auto.
+    + intros k Hk E. exfalso. apply (NR k Hk E).
+    + intros g0 Hg0. rewrite nth_upd. destruct (Nat.eqb g g0 && Nat.ltb g (length (trs s))) eqn:E; cbn; apply j_lockw; auto.
+    + intros g0 Hg0. destruct (Nat.eq_dec g0 g) as [->|Hne].
+      * constructor; unfold getT, Live, pumps_gone, getT; cbn -[nth upd]; rewrite !nth_upd, Nat.eqb_refl; destruct (Nat.ltb_spec g (length (trs s))); try lia; cbn; auto.
+        { intros _. repeat split; auto; try congruence.
+          intros k Hk E. specialize (j_fresh g k ltac:(cbn; apply Nat.eqb_refl) Hk). unfold getC in j_fresh. rewrite E in j_fresh. cbn in j_fresh. rewrite Nat.eqb_refl in j_fresh. discriminate. }
+      * apply (TrInv_upd s); [unfold getT; cbn -[nth upd]; rewrite nth_upd; destruct (Nat.eqb_spec g g0); [congruence|reflexivity] | exact (j_tr g0 Hg0) | | ];
+        destruct (j_tr g0 Hg0) as [A B C D]; unfold Live; rdc; rewrite ?HR in *.
+        { intros [X|[X|X]]; auto; try (apply Nat.eqb_eq in X; contradiction); try discriminate. }
+        { intros X. destruct (D X) as (D1 & D2 & D3 & D4). repeat split; auto; intros [Y|Y]; auto; discriminate. }
+  - (* it has closed already: start again *)
+    match goal with H : fired _ = true |- _ => pose proof (TB H) as WX end.
+    std HR; t4g j_t4; trs_ s j_tr HR; prop.
+    intros [X|[X|X]]; auto. cbn in X. apply Nat.eqb_eq in X. subst g0. right. exact WX.
+  - (* take the lock to record it *)
+    std HR; t4g j_t4; whg FW; trs_ s j_tr HR; prop.
+Qed.
+
+
+(* RHoldGot: record the transport, report Ready, unlock, wait *)
+Lemma step_rt_holdgot s s' via g : Inv s -> rt s = RHoldGot g -> step good s (LRt via) = Some s' -> Inv s'.
+Proof.
+  intros I HR H. pose proof I as I0. dI I0. unfold step in H. rewrite HR in H. pre3 H.
+  all: destruct (hold_facts s I ltac:(rewrite HR; reflexivity)) as (HA & HS & HW & HT & HN).
+  all: assert (AN : actr s = None) by (apply noactr_none; auto; rewrite HR; auto).
+  all: assert (Hg : g < length (trs s)) by (apply j_rtg; rewrite HR; cbn; apply Nat.eqb_refl).
+  all: destruct (j_tr g Hg) as [TA TB TC TD].
+  all: std HR; t4g j_t4; t1g HT; whg HW; trs_ s j_tr HR; prop.
+  all: intros X; destruct (D X) as (D1 & D2 & D3 & D4); repeat split; auto;
+    [ intros E; injection E as <-; cbn in D2; rewrite Nat.eqb_refl in D2; discriminate | intros [Y|Y]; auto; discriminate ].
+Qed.
+
+(* RFailed: the dial failed *)
+Lemma step_rt_failed s s' via : Inv s -> rt s = RFailed -> step good s (LRt via) = Some s' -> Inv s'.
+Proof.
+  intros I HR H. pose proof I as I0. dI I0. unfold step in H. rewrite HR in H. pre3 H.
+  all: match goal with H : negb (free _) = false |- _ => apply negb_false_iff in H; destruct (free_facts _ I H) as (FA & FH & FW) end.
+  all: assert (AN : actr s = None) by (apply noactr_none; auto; rewrite HR; auto).
+  all: std HR; t4g j_t4; whg FW; trs_ s j_tr HR; prop.
+Qed.
+
+Lemma step_rt_holdfail s s' via : Inv s -> rt s = RHoldFail -> step good s (LRt via) = Some s' -> Inv s'.
+Proof.
+  intros I HR H. pose proof I as I0. dI I0. unfold step in H. rewrite HR in H. pre3 H.
+  all: destruct (hold_facts s I ltac:(rewrite HR; reflexivity)) as (HA & HS & HW & HT & HN).
+  all: assert (AN : actr s = None) by (apply noactr_none; auto; rewrite HR; auto).
+  all: std HR; t4g j_t4; t1g HT; whg HW; trs_ s j_tr HR; prop.
+Qed.
+
+
+Lemma step_rt_closing s s' via g : Inv s -> rt s = RClosing g -> step good s (LRt via) = Some s' -> Inv s'.
+Proof.
+  intros I HR H. pose proof I as I0. dI I0. unfold step in H. rewrite HR in H. pre3 H.
+  match goal with H : pumps_gone _ _ = true |- _ => rename H into PG end.
+  assert (AN : actr s = None) by (apply noactr_none; auto; rewrite HR; auto).
+  std HR; t4g j_t4; trs_ s j_tr HR; prop.
+  - intros [X|[X|X]]; auto. cbn in X. apply Nat.eqb_eq in X. subst g0. right.
+    unfold pumps_gone, getT in PG. destruct (rp (nth g (trs s) _)); try discriminate. destruct (wp (nth g (trs s) _)) eqn:W; try discriminate. reflexivity.
+  - intros X. destruct (D X) as (D1 & D2 & D3 & D4). repeat split; auto. intros [Y|Y]; auto. injection Y as <-. right. right. exact PG.
+Qed.
+
+Lemma step_rt s s' via : Inv s -> step good s (LRt via) = Some s' -> Inv s'.
+Proof.
+  intros I H. destruct (rt s) eqn:HR.
+  - eapply step_rt_top; eauto.
+  - eapply step_rt_holdtop; eauto.
+  - unfold step in H. rewrite HR in H. destruct (crashed s); discriminate.
+  - eapply step_rt_got; eauto.
+  - eapply step_rt_holdgot; eauto.
+  - eapply step_rt_failed; eauto.
+  - eapply step_rt_holdfail; eauto.
+  - unfold step in H. rewrite HR in H. destruct (crashed s); discriminate.
+  - unfold step in H. rewrite HR in H. destruct (crashed s); discriminate.
+  - eapply step_rt_closing; eauto.
+  - unfold step in H. rewrite HR in H. destruct (crashed s); discriminate.
+Qed.
+
+
+
+(* ---- Close ---- *)
+Lemma step_newclose s s' : Inv s -> step good s LNewClose = Some s' -> Inv s'.
+Proof.
+  intros I H. pose proof I as I0. dI I0. pre3 H.
+  assert (GC : forall k, k < length (cl s) -> nth k (cl s ++ [C0]) (CRet false) = nth k (cl s) (CRet false)) by (intros; apply nth_app_old; auto).
+  assert (GL : nth (length (cl s)) (cl s ++ [C0]) (CRet false) = C0) by apply nth_app_last.
+  assert (K : forall k, k < length (cl s) + 1 -> k < length (cl s) \/ k = length (cl s)) by (intros; lia).
+  constructor; rdc; rewrite ?app_length; cbn [length]; auto.
+  - intros A k Hk. destruct (K k Hk) as [Hk'| ->]; [rewrite GC by auto; apply j_addr; auto | rewrite GL; auto].
+  - intros k1 k2 H1 H2. destruct (K k1 H1) as [H1'| ->]; destruct (K k2 H2) as [H2'| ->]; rewrite ?GL; rewrite ?GC by auto; cbn; auto; try discriminate.
+  - intros k Hk. destruct (K k Hk) as [Hk'| ->]; [rewrite GC by auto; apply j_ctx; auto | rewrite GL; congruence].
+  - intros k Hk. destruct (K k Hk) as [Hk'| ->]; [rewrite GC by auto; apply j_t1; auto | rewrite GL; discriminate].
+  - intros k Hk. destruct (K k Hk) as [Hk'| ->]; [rewrite GC by auto; apply j_t4; auto | rewrite GL; discriminate].
+  - intros k Hk. destruct (K k Hk) as [Hk'| ->]; [rewrite GC by auto; apply j_t5; auto | rewrite GL; discriminate].
+  - intros k Hk. destruct (K k Hk) as [Hk'| ->]; [rewrite GC by auto; intros E; exact (j_ret k Hk' E) | rewrite GL; discriminate].
+  - intros k g Hk. destruct (K k Hk) as [Hk'| ->]; [rewrite GC by auto; apply j_cg; auto | rewrite GL; discriminate].
+  - intros A. destruct (j_shut A) as (k & Hk & E). exists k. split; [lia | rewrite GC by auto; auto].
+  - intros g A. destruct (j_wait g A) as [X|[X [(k & Hk & E)|Y]]]; auto. right. split; auto. left. exists k. split; [lia | rewrite GC by auto; auto].
+  - intros g Hg. apply (TrInv_upd s); [reflexivity | exact (j_tr g Hg) | | ]; destruct (j_tr g Hg) as [A B C D]; unfold Live; rdc.
+    + intros [X|[X|(k & Hk & E)]]; auto. left. right. right. exists k. rewrite app_length. split; [lia | rewrite GC by auto; auto].
+    + intros X. destruct (D X) as (D1 & D2 & D3 & D4). rewrite app_length. cbn [length]. repeat split; auto.
+      * intros k Hk. destruct (K k Hk) as [Hk'| ->]; [rewrite GC by auto; auto | rewrite GL; discriminate].
+      * intros [(k & Hk & E)|Y]; auto. left. exists k. split; [lia | rewrite GC by auto; auto].
+  - intros g k F Hk. destruct (K k Hk) as [Hk'| ->]; [rewrite GC by auto; auto | rewrite GL; reflexivity].
+Qed.
